@@ -14,7 +14,7 @@ use notify_debouncer_full::{
 use prelude::Postfix;
 use std::{path::PathBuf, time::Duration};
 use tokio::{runtime::Handle, sync::mpsc::Receiver};
-use tracing::{info, warn};
+use tracing::{error, info, warn};
 
 use crate::{
     batch_compile::{compile, print_result},
@@ -55,7 +55,13 @@ pub async fn handle_watch_command<TCompilationProfile: CompilationProfile>(
                         create_debounced_file_watcher(&config);
                 } else {
                     info!("{}", "File changes detected. Starting to compile.".cyan());
-                    update_sources(&mut state.db, &changes)?;
+                    if let Err(errors) = update_sources(&mut state.db, &changes) {
+                        // e.g. a file that cannot be read. Keep watching: the next change may
+                        // well fix it.
+                        for error in errors {
+                            error!("{}", error);
+                        }
+                    }
                 };
                 let result = WithDuration::new(|| compile::<TCompilationProfile>(&mut state));
                 let _ = print_result(&state.db, result);
